@@ -424,6 +424,11 @@ def special_items():
     yield Item(["Deref", "DerefMut", "AsRef", "AsMut", "Index", "IndexMut", "IntoIterator"],
                "pub struct @N@ { #[deref] #[deref_mut] #[as_ref] #[as_mut] #[index] #[index_mut] #[into_iterator(owned, ref, ref_mut)] Target: ::std::vec::Vec<u8>, Output: u8, Item: u8, IntoIter: u8 }",
                ("special", "assoc-named-fields", "none", "plain", "-"))
+    # record-like variants are documented as unsupported by Unwrap/TryUnwrap only when they take part: ignored ones are fine
+    yield Item(["Unwrap", "TryUnwrap", "IsVariant"], "pub enum @N@ { A(u8), #[unwrap(ignore)] #[try_unwrap(ignore)] N { x: u8, y: u16 }, U, #[unwrap(ignore)] #[try_unwrap(ignore)] E {} }",
+               ("special", "ignored-record-variant", "none", "plain", "ignore"))
+    yield Item(["Unwrap", "TryUnwrap"], "#[unwrap(ref, ref_mut)]\n#[try_unwrap(ref, ref_mut)]\npub enum @N@<T> { A(T), #[unwrap(ignore)] #[try_unwrap(ignore)] N { x: T }, U }",
+               ("special", "ignored-record-variant", "T", "plain", "ref,ref_mut+ignore"))
     # a tuple TYPE listed for an item with a single field is one conversion source/target, not a field list
     yield Item(["From"], "#[from((::std::net::IpAddr, u16))]\npub struct @N@(::std::net::SocketAddr);", ("special", "tuple-type-for-single-field", "none", "plain", "from"))
     yield Item(["From", "Into"], "#[from((i32, i64))]\n#[into((i32, i64))]\npub struct @N@((i32, i64));", ("special", "tuple-type-for-single-field", "none", "plain", "from+into"))
